@@ -57,6 +57,11 @@ fn blob_program(s: &mut Src) -> Program {
             .collect();
         return Program { guid: "{blob-file}".into(), ops, end: End::FinalizeReplace(pairs) };
     }
+    if s.chance(1, 10) {
+        // a caller that goes on using the finished writer: what was written before must still come back exactly
+        let more = (0..1 + s.below(2)).map(|_| Op::Blob(gen::blob_spec(s))).collect();
+        return Program { guid: "{blob-file}".into(), ops, end: End::FinalizeThenMore { more, customized: s.flag() } };
+    }
     Program { guid: "{blob-file}".into(), ops, end: End::Finalize }
 }
 
